@@ -593,6 +593,22 @@ pub fn generate(seed: u64, scale: usize, decode_heavy: bool) -> Cases {
             }
         }
     }
+    // error descriptions of every size up to the datagram limit, ASCII and with a multi-byte character across each
+    // power-of-two (and 1000) byte offset: free text that a remote node chooses
+    for off in [64usize, 128, 255, 256, 512, 1000, 1024, 1500] {
+        for variant in 0..3u8 {
+            let description = match variant {
+                0 => "e".repeat(off + 1),
+                1 => format!("{}{}", "a".repeat(off - 1), "\u{e9}".repeat(40)),
+                _ => format!("{}{}", "a".repeat(off - 2), "\u{20ac}".repeat(30)),
+            };
+            let mut m = gen_message(&mut cx, &mut r, KINDS - 1);
+            m.message_type = MessageType::Error(dht::errors::ErrorSpecific { code: *r.pick(&[201i32, 203, 301]), description });
+            if let Some(c) = case_enc(&cx, &m) {
+                cases.push("error_description_sizes", c);
+            }
+        }
+    }
     // decode stream: neighbourhood of small encodings
     let per_kind = if decode_heavy { 3 * scale } else { 1 };
     let mut neigh: Vec<Vec<u8>> = Vec::new();
